@@ -31,6 +31,8 @@ def run(ctx):
     else:
         closure(ctx, exe, "p8", [2, 1, 3, 1, 2, 3, 2, 4], props)
         closure(ctx, exe, "p9", [1, 2, 3, 4, 5, 6, 7, 8, 9], props)
+        # objects set up with the CSTL_*_INITIALIZER macros instead of the init functions: same closure, same model
+        closure(ctx, build(ctx, "drv_heap_macro", "drv_heap.c", LIB, defs=["USE_INITIALIZER"]), "p6-macro", [1, 1, 2, 2, 3, 3], props)
         n, steps = 300, 25000
     pr = [1 + rng.randrange(6) for _ in range(n)]
     impl_phase(ctx, "rand", exe, ["random", ctx.seed, steps, 2], ["".join(map(str, pr)), 1, 1], "TraceHeap", pdef(pr), consts(pr), props)
